@@ -1084,13 +1084,14 @@ def obligations(tier):
         ]
     else:
         obs += [
-            Symx("h2-schedule", lambda X: h_schedule(X, Cfg(shapes=["HDT", "HDDT"], resp=["HDT", "HD"], splits=2)),
-                 bounds="2 client streams (HEADERS DATA TRAILERS / HEADERS DATA DATA TRAILERS); every interleaving; <= 2 cuts from a 5-entry menu",
+            Symx("h2-schedule", lambda X: h_schedule(X, Cfg(shapes=["HDT", "HDDT"], resp=["HDT", "HD"], splits=1)),
+                 bounds="2 client streams (HEADERS DATA TRAILERS / HEADERS DATA DATA TRAILERS), responses (HEADERS DATA TRAILERS / HEADERS DATA+END); every interleaving; "
+                        "<= 1 cut of the byte stream from a 5-entry menu at any frame of either direction",
                  encoded=S, must_reach=["end", "answered", "cut", "request-hook"], parallel_depth=5),
             Symx("h2-schedule-3", lambda X: h_schedule(X, Cfg(shapes=["HDT", "HD", "H"], resp=["HD", "HDT", "H"], splits=0, mcs=True)),
                  bounds="3 client streams (with trailers / body only / bodiless); every interleaving of client and server frames; MAX_CONCURRENT_STREAMS=1 or default",
                  encoded=S, must_reach=["end", "answered", "mcs", "limited-open"], parallel_depth=5),
-            Symx("h2-schedule-faults", lambda X: h_schedule(X, Cfg(shapes=["HD", "HD", "H"], resp=["HD", "H", "H"], splits=0, faults=1, mcs=True, mcs_later=True)),
+            Symx("h2-schedule-faults", lambda X: h_schedule(X, Cfg(shapes=["H", "HD", "H"], resp=["H", "H", "HD"], splits=0, faults=1, mcs=True, mcs_later=True)),
                  bounds="3 client streams; every interleaving; MAX_CONCURRENT_STREAMS=1 initially, later or never; <= 1 RST_STREAM by client or server at any point",
                  encoded=S, must_reach=["end", "answered", "client-reset", "server-reset", "mcs", "limited-open", "error-relayed"], parallel_depth=5),
         ]
